@@ -734,10 +734,12 @@ func lexSoyDocParam(l *lexer) {
 	for {
 		var r = l.next()
 		if isSpaceEOL(r) || r == eof {
-			l.pos--
+			if r != eof {
+				l.pos--
+			}
 			l.emit(itemIdent)
 			// don't skip newlines. the outer routine needs to know about it
-			if isSpace(r) || r == eof {
+			if isSpace(r) {
 				l.pos++
 			}
 			l.ignore()
